@@ -29,6 +29,8 @@ THEOREMS = [
     'C03.nbr_growth_as_modelled', 'C03.answers_fresh', 'C03.answers_history_independent', 'C03.answers_complete',
     'C03.src_reals_double', 'C03.src_scalars_as_modelled', 'C03.dump_as_modelled', 'C03.src_dump_roundtrip',
     'C03.getitem_as_modelled',
+    'C03.spec_scale_invariant', 'C03.nlist_scale_invariant', 'C03.spec_translate_invariant',
+    'C03.nlist_translate_invariant',
 ]
 PARTIAL = {}
 RULE = ('systems: orthogonal / tilted / general (rotated, left-handed) cells with non-zero origin, all 8 pbc '
@@ -64,7 +66,26 @@ RULE = ('systems: orthogonal / tilted / general (rotated, left-handed) cells wit
         'placed across an edge of the grid that a bin width a hair below the cutoff (its single-precision rounding, or '
         'c(1-1e-9..1e-6)) would have; "scale": sparse lists for 100001-103000 atoms (indices of 1-6 digits) loaded from '
         'text, dumped and re-loaded, and a whole 47^3..50^3 simple-cubic lattice through nlist with a closed-form oracle, '
-        'then dump -> load. '
+        'then dump -> load; sparse lists for 1000001-1003000 atoms (seven-digit indices); lists with rows of 999 .. n-1 '
+        'entries (hub atoms, 1003-2600 atoms) through the load path and a ball of 1002-1150 mutual neighbors + 4 isolated '
+        'atoms through nlist (closed-form oracle), each dumped (onto an existing non-empty file) and re-loaded. '
+        '"bigcut": cutoff >> cell — cells of every shape (orthogonal, tilted, sheared with tilt factors up to 1.5 edges, '
+        'row-permuted / left-handed, rotated; every 4th on a dyadic grid), all 8 pbc settings, 2-9 atoms on the corners '
+        '(the two ends of the longest body diagonal in half of the cases), a hair (1e-7..1e-4) inside them, at the centre, '
+        'at random; cutoff uniform between two neighbouring cell measures (edges, face and body diagonals, Frobenius norm, '
+        'sum of edges, widths, bounding-box extents and diagonal), or 1-3 longest body diagonals, or between two '
+        'neighbouring values of the pair-distance spectrum, or the farthest pair +- 1e-6..5e-2. "elongated": cell >> '
+        'cutoff along ONE Cartesian axis (x, y, z in turn): 1030-5000 bins (thorough / broken: up to 70000) along it, the '
+        'other two cell dimensions 0.4-4 cutoffs, short vectors tilted along the long axis, rows permuted, long vector '
+        'up or down the axis, all 8 pbc settings, 2-16 atoms in the last / first bins, in bins 2^m-2..2^m+2 for every 2^m '
+        'below the bin count, at random, in pairs 0.5-1.2 cutoffs apart along the axis and across its periodic boundary. '
+        '"chain": 1100-5000 atoms (thorough: up to 20000) along such a cell, one every 0.7-1.3 cutoffs, shuffled, decided '
+        'with the sparse exact oracle. Every full search case is also built a second time with the same values as other '
+        'python / numpy types (cutoff as numpy float64 / float32 / int / numpy int32 where exact, sizes as numpy int64 / '
+        'int32, nlist(...) positionally), some with initialsize / deltasize up to 65537 / 100000, some after overwriting '
+        'the array of the first result; the System handed in must be bitwise unchanged; every 3rd dyadic-grid case is '
+        'repeated with all lengths multiplied by 2^k, |k| <= 480 (exact: same lists required); every 7th grid case sits '
+        '1-3 x 2^10..2^30 away from the coordinate origin. '
         'distinct = distinct canonical input line; non-trivial = at least one pair below the cutoff.')
 ASSUMPTIONS = [
     'IEEE double evaluation of dmag2 < cutoff*cutoff agrees with the exact comparison except for pairs whose exact '
@@ -88,6 +109,11 @@ ASSUMPTIONS = [
     'C01/C05/C06',
 ]
 TRUSTED = ['numpy arange/digitize/unique/vstack/hstack inside nlist.pyx (correspondence run)',
+           'sparse oracle (chains): candidate pairs from a python dictionary of cells 1.000001 cutoffs wide holding every '
+           'atom and image (float floor; cross-checked against the all-pairs oracle on every 16th small case), each '
+           'candidate decided with exact integers',
+           'statement templates of nlist / unique_rows2 (text, comments and blank lines removed, indentation kept) and of '
+           'NeighborList.load / __init__ (ast.unparse) in the translator: any other statement is a broken tie',
            'exact oracle: python int arithmetic on float.as_integer_ratio inputs',
            'regular-expression template of the two growth blocks of nlist.pyx in the translator (any other shape of '
            'these blocks is reported as a broken tie, never silently accepted)',
@@ -2474,8 +2500,15 @@ def _isolated(ctx, fn, what):
             raise RuntimeError(f'{name}: {msg}')
         return
     sig = os.WTERMSIG(status) if os.WIFSIGNALED(status) else f'exit {os.WEXITSTATUS(status)}'
-    ctx.extra['_canary'] = True
-    if not any(f.key == 'crash' for f in ctx.violations):
+    # the phases that follow run in children of their own: they are not skipped (a death in the correspondence run on an
+    # input outside the property's quantifier must not stand in for a failing input of the property)
+    outside = isinstance(last, dict) and isinstance(last.get('case'), dict) and last['case'].get('regime') == 'outside'
+    if outside:
+        c = last['case']
+        ctx.disagree('crash-outside', f'the interpreter is terminated (signal {sig}) while building the neighbor list of a '
+                     f'system with atoms up to half a cutoff OUTSIDE the cell (not an input of the property; the model '
+                     f'computes a list for it) [{what}]: natoms={len(c["pos"])}, pbc={c["pbc"]}, cutoff={c["cutoff"]!r}', last)
+    elif not any(f.key == 'crash' for f in ctx.violations):
         if isinstance(last, dict) and last.get('op') == 'sequence':
             ctx.violate('crash', f'a neighbor-list call on one System object after operations '
                         f'{[x["op"] for x in last.get("steps", [])]} terminates the interpreter (signal {sig}) [{what}]', last)
@@ -2656,9 +2689,9 @@ def _correspond(ctx):
             _correspond_case(ctx, case, 'corpus:' + name, tmpdir, True)
         plan = [(gen_general, ctx.n(120, 2500)), (gen_grid, ctx.n(120, 3000)), (gen_edges, ctx.n(50, 1000)),
                 (gen_hunt, ctx.n(150, 4000)), (gen_outside, ctx.n(80, 1200)), (gen_shear, ctx.n(120, 2000)),
-                (gen_dense, ctx.n(15, 140)), (gen_fine, ctx.n(120, 3000)), (gen_nearcut, ctx.n(100, 2000)),
+                (gen_dense, ctx.n(12, 140)), (gen_fine, ctx.n(120, 3000)), (gen_nearcut, ctx.n(100, 2000)),
                 (_gen_crystal_small, ctx.n(12, 150)), (gen_narrowbin, ctx.n(40, 1000)),
-                (gen_bigcut, ctx.n(60, 1500)), (gen_elongated, ctx.n(30, 500))]
+                (gen_bigcut, ctx.n(100, 1500)), (gen_elongated, ctx.n(16, 500))]
         import time
         ph = ctx.extra.setdefault('phase_seconds', {})
         for gen, count in plan:
@@ -2673,8 +2706,54 @@ def _correspond(ctx):
         for it in range(ctx.n(40, 450)):
             run_sequence(ctx, rng, it, 'corr', tmpdir, trace=_trace)
         ph['corr:sequence'] = round(time.time() - t0, 1)
+        t0 = time.time()
+        for _ in range(ctx.n(2, 12)):
+            _corr_long_rows(ctx, rng, tmpdir)
+        ph['corr:longrows'] = round(time.time() - t0, 1)
     # text format: hand-made rows (long lists, empty lists, many digits) through dump/load of the model only
     _model_text_selfcheck(ctx, rng)
+
+
+def _corr_long_rows(ctx, rng, tmpdir):
+    """rows of about a thousand entries: the file the real `dump` writes against the model's `renderGen`, the model's
+    `parse` of that file against the lists."""
+    import atomman as am
+    while True:
+        n, rows = gen_hub_rows(rng)
+        if n <= 1400:
+            break
+    full = [rows.get(i, []) for i in range(n)]
+    payload = {'op': 'large', 'n': n, 'rows': {str(i): r for i, r in rows.items()}}
+    text = ('# Neighbor list:\n# The first column gives an atom index.\n'
+            '# The rest of the columns are the indexes of the identified neighbors.\n'
+            + ''.join(' '.join(map(str, [i] + r)) + '\n' for i, r in enumerate(full)))
+    path = os.path.join(tmpdir, 'longrows.txt')
+    ctx.stats.case('corr:longrows', (n, json.dumps(payload['rows'], sort_keys=True)), nontrivial=True,
+                   sample={'natoms': n, 'longest_row': max(len(r) for r in full)})
+    try:
+        nl = am.NeighborList(model=text)
+        nl.dump(path)
+        with open(path, 'rb') as f:
+            raw = f.read()
+    except Exception as e:  # noqa
+        ctx.violate('roundtrip-raises', f'NeighborList(model=<text for {n} atoms, longest list {max(len(r) for r in full)} '
+                    f'entries>).dump raised {type(e).__name__}: {str(e)[:200]}', payload)
+        return
+    out = ctx.driver.ask(f'dump {n} ' + _flat_rows(full))
+    model_text = ''.join(chr(int(t)) for t in out.split()) if not out.startswith('err') else out
+    if model_text != raw.decode('utf-8'):
+        k = next((k for k, (a, b) in enumerate(zip(model_text, raw.decode('utf-8'))) if a != b), min(len(model_text), len(raw)))
+        ctx.disagree('dump', f'dumped file ({n} atoms, rows up to {max(len(r) for r in full)} entries) differs from the model '
+                     f'rendering at character {k}: {raw.decode("utf-8")[max(0, k - 30):k + 30]!r} vs '
+                     f'{model_text[max(0, k - 30):k + 30]!r}', payload)
+        return
+    out = ctx.driver.ask('load ' + ' '.join(str(b) for b in raw))
+    if out.startswith('err'):
+        ctx.disagree('load', f'model refuses the dumped text: {out}', payload)
+        return
+    nums = [int(t) for t in out.split()[1:]]
+    if _parse_rows(nums[1:], nums[0]) != full:
+        ctx.disagree('load', f'model parse of the dumped text ({n} atoms) differs from the lists', payload)
 
 
 def _model_text_selfcheck(ctx, rng):
@@ -2989,11 +3068,16 @@ def run_sequence(ctx, rng, it, mode, tmpdir, script=None, trace=None):
         n = len(case['pos'])
         if trace is not None:
             trace(payload)
+        before = _snapshot(system)
         try:
             nl, rows, coord, cap = _query(system, q, via)
         except Exception as e:  # noqa
             ctx.violate('raises', f'{VIA[via]} raised {type(e).__name__}: {e} after operations '
                         f'{[d["op"] for d in done]}', payload)
+            return
+        if _snapshot(system) != before:
+            ctx.violate('input-modified', f'{VIA[via]} changed the System it was called on (positions / box / pbc no longer '
+                        f'bitwise what they were) after operations {[d["op"] for d in done]}', payload)
             return
         hist = [d['op'] for d in done]
         what_q = f'{VIA[via]} (cutoff={q["cutoff"]!r}, initialsize={q["init"]}, deltasize={q["delta"]}) as query ' \
@@ -3035,19 +3119,21 @@ def run_sequence(ctx, rng, it, mode, tmpdir, script=None, trace=None):
 # ----------------------------------------------------------------------------------------
 # scale: more than 100 000 atoms (six-digit indices in the file; a whole lattice through nlist)
 # ----------------------------------------------------------------------------------------
-def gen_large_rows(rng):
-    """sparse neighbor lists for n > 100 000 atoms: {atom: ascending neighbors}, symmetric, most atoms isolated;
-    indices of 1 to 6 digits, several of them >= 100000 and adjacent in one list."""
-    n = 100001 + rng.randint(0, 3000)
-    pool = sorted(set([0, 9, 10, 99, 100, 999, 1000, 9999, 10000, 99998, 99999, 100000, n - 1, n - 2]
-                      + [rng.randrange(n) for _ in range(12)] + [rng.randrange(100000, n) for _ in range(6)]))
+def gen_large_rows(rng, digits=6):
+    """sparse neighbor lists for n > 100 000 atoms (`digits` = 7: n > 1 000 000): {atom: ascending neighbors}, symmetric,
+    most atoms isolated; indices of 1 to `digits` digits, several of them with the full number of digits and adjacent in
+    one list."""
+    top = 10 ** (digits - 1)
+    n = top + 1 + rng.randint(0, 3000)
+    pool = sorted(set([0, 9, 10, 99, 100, 999, 1000, 9999, 10000, 99998, 99999, 100000, top - 2, top - 1, top, n - 1, n - 2]
+                      + [rng.randrange(n) for _ in range(12)] + [rng.randrange(top, n) for _ in range(6)]))
     rows = {}
     for _ in range(rng.randint(8, 30)):
         i, j = rng.sample(pool, 2)
         rows.setdefault(i, set()).add(j)
         rows.setdefault(j, set()).add(i)
     hub = n - 1 - rng.randint(0, 1)
-    for j in rng.sample(pool, 6) + [100000, 99999]:
+    for j in rng.sample(pool, 6) + [top, top - 1]:
         if j != hub:
             rows.setdefault(hub, set()).add(j)
             rows.setdefault(j, set()).add(hub)
@@ -3199,8 +3285,10 @@ def check_large_rows(ctx, n, rows, tmpdir):
         ctx.violate('load-large', f'NeighborList(model=<text for {n} atoms>) raised {type(e).__name__}: {e}', payload)
         return
     if not ok0:
-        ctx.violate('load-large', f'NeighborList(model=<text for {n} atoms>) holds other lists than the text: e.g. '
-                    f'{_short({i: got0[i] for i in show})} for {_short(show)}', payload)
+        wrong = [i for i in rows if got0.get(i) != rows[i]][:2]
+        ctx.violate('load-large', f'NeighborList(model=<text for {n} atoms>) holds other lists than the text '
+                    f'({len(nl0)} atoms): e.g. {_short({i: got0.get(i) for i in wrong})} for {_short({i: rows[i] for i in wrong})}',
+                    payload)
         return
     path = os.path.join(tmpdir, 'large.txt')
     try:
@@ -3296,6 +3384,11 @@ def scale_checks(ctx, rng, tmpdir, broken):
         check_large_rows(ctx, n, rows, tmpdir)
         if len(ctx.violations) >= 6:
             return
+    for _ in range(ctx.n(1, 3)):
+        n, rows = gen_large_rows(rng, digits=7)            # seven-digit indices
+        check_large_rows(ctx, n, rows, tmpdir)
+        if len(ctx.violations) >= 6:
+            return
     for _ in range(ctx.n(3, 20) * (2 if broken else 1)):
         n, rows = gen_hub_rows(rng)
         check_large_rows(ctx, n, rows, tmpdir)
@@ -3364,6 +3457,8 @@ def _search_case(ctx, case, kind, name, full, tmpdir=None):
         return
     cls = exact_classes(case)
     nin = sum(1 for k in cls.values() if k == 'in')
+    if n >= 2 and (n + init + delta) % 16 == 0:
+        _oracle_selfcheck(ctx, case, cls)
     ctx.stats.case('oracle:' + kind, (name, json.dumps(case, sort_keys=True)), nontrivial=nin > 0,
                    sample={'natoms': n, 'pbc': case['pbc'], 'cutoff': case['cutoff'], 'pairs_below_cutoff': nin,
                            'initialsize': init, 'deltasize': delta})
@@ -3446,6 +3541,18 @@ def _search_case(ctx, case, kind, name, full, tmpdir=None):
             ctx.extra['_tn'] = ctx.extra.get('_tn', 0) + 1
             if ctx.extra['_tn'] % 4 == 0:
                 _true_nearest_report(ctx, case, rows)
+
+
+def _oracle_selfcheck(ctx, case, cls):
+    """the sparse oracle (dictionary of cells + exact integers) against the all-pairs oracle on a small case."""
+    np = _np()
+    P = np.abs(np.array(case['pos'], dtype=float))
+    if float(P.max()) / case['cutoff'] >= 1e8:
+        return
+    inside, tie = exact_neighbors_sparse(case)
+    if inside != {k for k, v in cls.items() if v == 'in'} or tie != {k for k, v in cls.items() if v == 'tie'}:
+        raise cm.InfraError(f'C03 harness: sparse and all-pairs oracle disagree on {json.dumps(case)}')
+    ctx.extra['sparse_oracle_selfchecks'] = ctx.extra.get('sparse_oracle_selfchecks', 0) + 1
 
 
 def _search_chain(ctx, case, kind, tmpdir, it):
@@ -3561,7 +3668,7 @@ def _search(ctx, broken):
         _search_case(ctx, case, 'corpus', name, True)
     mult = 3 if broken else 1
     plan = [('dense', gen_dense, ctx.n(40, 1500) * mult), ('shear', gen_shear, ctx.n(600, 10000) * mult),
-            ('hunt', gen_hunt, ctx.n(4000, 60000) * mult), ('general', gen_general, ctx.n(250, 8000) * mult),
+            ('hunt', gen_hunt, ctx.n(3200, 60000) * mult), ('general', gen_general, ctx.n(250, 8000) * mult),
             ('grid', gen_grid, ctx.n(250, 8000) * mult), ('edges', gen_edges, ctx.n(100, 3000) * mult),
             ('fine', gen_fine, ctx.n(500, 12000) * mult), ('nearcut', gen_nearcut, ctx.n(400, 10000) * mult),
             ('crystal', gen_crystal, ctx.n(60, 1000) * mult), ('narrowbin', gen_narrowbin, ctx.n(300, 6000) * mult),
@@ -3726,8 +3833,12 @@ MANIFEST = {
             'to the source of the run is render (dump_as_modelled, src_dump_roundtrip); every real variable of nlist / '
             'dmag2_c is declared double, cutoff2 = cutoff*cutoff, binsize = cutoff, the distance / self / minimum tests '
             'are the strict modelled ones, coord / [i] are column 0 / the columns from 1 cut at coord (src_reals_double, '
-            'src_scalars_as_modelled, getitem_as_modelled). Tie: translator (growth blocks, declared C types, scalar '
-            'expressions and tests, dump formats, build / __getitem__) + differential correspondence with the real '
+            'src_scalars_as_modelled, getitem_as_modelled); the specification and, for atoms inside the cell, the computed '
+            'lists are unchanged when every length is multiplied by s > 0 or the whole system is translated '
+            '(spec_scale_invariant, nlist_scale_invariant, spec_translate_invariant, nlist_translate_invariant); a cutoff '
+            'above the Frobenius norm of a sheared cell does not make all pairs neighbors (example). Tie: translator (growth '
+            'blocks, declared C types, scalar expressions and tests, dump formats, build / __getitem__, and every other '
+            'statement of nlist / unique_rows2 / NeighborList.load / __init__ pinned) + differential correspondence with the real '
             'NeighborList / System.neighborlist / nlist on identical rational inputs (rows, coord, storage width, dumped '
             'text, re-loaded rows, whole operation sequences on one object).',
     'note': 'Trusted: Lean kernel + propext/Classical.choice/Quot.sound; the correspondence harness; numpy '
